@@ -149,3 +149,11 @@ def oracle(line, out):
 
 
 known_match = common.no_known
+
+
+def literal_ops(lit):
+    m = "P:%s:%s:0:0:0:none" % (hx((12345).to_bytes(32, "big")), hx(bytes(range(32))))
+    for app, param in (("wif", 0), ("xprv", 0), ("hex", 32), ("pwd", 21), ("mnemonic", 12)):
+        yield "bip85 %s %s %d %d -" % (m, app, param, lit)
+    for app in ("hex", "pwd", "mnemonic"):
+        yield "bip85 %s %s %d 0 -" % (m, app, lit)
